@@ -1,73 +1,17 @@
 """The proof part of a check: contracts of the property -> VCs from the current /repo source ->
-solvers -> counter-model replay on the real function."""
+solvers -> counter-model replay on the real function.  One worker process per function."""
 from __future__ import annotations
 
 import json
+import multiprocessing as mp
 import os
 import time
+from concurrent.futures import ProcessPoolExecutor
 
 from vlib.runner import Item
 
 QUICK_MS = 20000
 THOROUGH_MS = 90000
-
-
-def run_proofs(prop, mod, tier, info, only=None):
-    from contracts import build_registry
-    from contracts.records import BUILDERS
-    from pyvc import replay as R
-    from pyvc import solve
-    from pyvc.contracts import verify_function
-    from pyvc.interp import World
-
-    reg = build_registry()
-    world = World(reg)
-    items = []
-    contracts = [c for c in reg.for_prop(prop) if c.verify]
-    if only:
-        contracts = [c for c in contracts if only in c.key]
-    reports = []
-    all_obs = []
-    for c in contracts:
-        rep = verify_function(world, c)
-        reports.append((c, rep))
-        info['functions'].append({'function': c.key, 'source_sha256': rep.sha, 'subset': rep.status, 'detail': rep.detail,
-                                  'paths': rep.paths, 'obligations': len(rep.obligations)})
-        if rep.status != 'ok':
-            items.append(Item(id=f'{c.key}/extract', kind='P', status='undecided', function=c.key,
-                              note=f'function could not be brought under its contract: {rep.status}', detail=rep.detail))
-            continue
-        if not rep.obligations:
-            items.append(Item(id=f'{c.key}/vacuous', kind='P', status='undecided', function=c.key,
-                              note='no obligations generated (vacuous contract)', detail=''))
-        if rep.feasible_returns == 0 and not c.raises:
-            items.append(Item(id=f'{c.key}/unreachable', kind='P', status='undecided', function=c.key,
-                              note='no feasible path reaches a normal exit: contradictory precondition?', detail=''))
-        all_obs.extend((c, ob) for ob in rep.obligations)
-    for c in reg.for_prop(prop):
-        if not c.verify:
-            info['assumptions'].add(f'assumed contract (not verified): {c.key} -- {c.note}')
-    timeout = THOROUGH_MS if tier == 'thorough' else QUICK_MS
-    verdicts = solve.discharge(world, [ob for _, ob in all_obs], timeout_ms=timeout)
-    builders = BUILDERS
-    for c, ob in all_obs:
-        v = verdicts[ob.oid]
-        it = Item(id=f'{prop}/{ob.oid}', kind='P', status=v.status, note=ob.note, backend=v.backend, ms=v.ms,
-                  tag=ob.tag, function=c.key, detail=v.reason, lemmas=ob.lemmas)
-        if v.status == 'refuted':
-            _replay(world, reg, c, ob, it, builders, R, solve)
-        items.append(it)
-    # spec lemmas
-    if hasattr(mod, 'lemmas'):
-        items += mod.lemmas(world, reg, tier)
-    for a in world.assumptions:
-        info['assumptions'].add(a)
-    info['assumptions'].update(BASE_ASSUMPTIONS)
-    for it in items:
-        for l in it.lemmas:
-            info['assumptions'].add(f'bounded lemma {l} is assumed by obligations counted under discharged_modulo_bounded')
-    return items
-
 
 BASE_ASSUMPTIONS = [
     'pyvc: python ints are mathematical integers (exact for CPython)',
@@ -76,7 +20,91 @@ BASE_ASSUMPTIONS = [
     'pyvc: per-character predicates are uninterpreted; only the exact ASCII facts and the set of realizable predicate vectors of this interpreter (recomputed on every run) are axioms',
     'pyvc: records are held by value; the ownership discipline (a frame is referenced only from its stack slot) is assumed where not proved',
     'pyvc extraction drops docstrings, annotations and decorators @staticmethod/@cache/@override/@deprecated; nothing else',
+    'pyvc: parse functions are deterministic functions of their top frame (generic contract PARSE); memo/world effects are abstracted there (C04 argues transparency separately)',
 ]
+
+_STATE = {}
+
+
+def _world():
+    if 'world' not in _STATE:
+        from contracts import build_registry
+        from pyvc.interp import World
+        reg = build_registry()
+        _STATE['reg'] = reg
+        _STATE['world'] = World(reg)
+    return _STATE['reg'], _STATE['world']
+
+
+def prove_one(args):
+    """verify one function against its contract; returns picklable results"""
+    key, prop, timeout = args
+    from contracts.records import BUILDERS
+    from pyvc import replay as R
+    from pyvc import solve
+    from pyvc.contracts import verify_function
+
+    reg, world = _world()
+    world.assumptions = set()
+    c = reg.contracts[key]
+    t0 = time.time()
+    rep = verify_function(world, c)
+    finfo = {'function': c.key, 'source_sha256': rep.sha, 'subset': rep.status, 'detail': rep.detail,
+             'paths': rep.paths, 'obligations': len(rep.obligations), 'symex_s': round(time.time() - t0, 2)}
+    items = []
+    if rep.status != 'ok':
+        items.append(Item(id=f'{prop}/{c.key}/extract', kind='P', status='undecided', function=c.key,
+                          note=f'function could not be brought under its contract: {rep.status}', detail=rep.detail))
+        return finfo, items, sorted(world.assumptions)
+    if not rep.obligations:
+        items.append(Item(id=f'{prop}/{c.key}/vacuous', kind='P', status='undecided', function=c.key,
+                          note='no obligations generated (vacuous contract)', detail=''))
+    if rep.feasible_returns == 0 and not c.raises:
+        items.append(Item(id=f'{prop}/{c.key}/unreachable', kind='P', status='undecided', function=c.key,
+                          note='no feasible path reaches a normal exit: contradictory precondition?', detail=''))
+    verdicts = solve.discharge(world, rep.obligations, timeout_ms=timeout, jobs=1)
+    for ob in rep.obligations:
+        v = verdicts[ob.oid]
+        it = Item(id=f'{prop}/{ob.oid}', kind='P', status=v.status, note=ob.note, backend=v.backend, ms=v.ms,
+                  tag=ob.tag, function=c.key, detail=v.reason, lemmas=ob.lemmas)
+        if v.status == 'refuted':
+            _replay(world, reg, c, ob, it, BUILDERS, R, solve)
+        items.append(it)
+    return finfo, items, sorted(world.assumptions)
+
+
+def run_proofs(prop, mod, tier, info, only=None):
+    from contracts import build_registry
+
+    reg = build_registry()
+    contracts = [c for c in reg.for_prop(prop) if c.verify]
+    if only:
+        contracts = [c for c in contracts if only in c.key]
+    for c in reg.for_prop(prop):
+        if not c.verify:
+            info['assumptions'].add(f'assumed contract (not verified by pyvc): {c.key} -- {c.note}')
+    timeout = THOROUGH_MS if tier == 'thorough' else QUICK_MS
+    work = [(c.key, prop, timeout) for c in contracts]
+    jobs = int(os.environ.get('VERIF_JOBS', '0') or 0) or min(16, os.cpu_count() or 4)
+    items = []
+    results = []
+    if jobs <= 1 or len(work) <= 1:
+        results = [prove_one(w) for w in work]
+    else:
+        with ProcessPoolExecutor(max_workers=min(jobs, len(work)), mp_context=mp.get_context('spawn')) as ex:
+            results = list(ex.map(prove_one, work, chunksize=1))
+    for finfo, its, assumptions in results:
+        info['functions'].append(finfo)
+        items.extend(its)
+        info['assumptions'].update(assumptions)
+    if hasattr(mod, 'lemmas'):
+        from pyvc.interp import World
+        items += mod.lemmas(World(reg), reg, tier)
+    info['assumptions'].update(BASE_ASSUMPTIONS)
+    for it in items:
+        for l in it.lemmas:
+            info['assumptions'].add(f'lemma {l} is assumed (checked only by a bounded run or listed as an assumption); obligations using it are counted under discharged_modulo_bounded')
+    return items
 
 
 def _replay(world, reg, c, ob, it, builders, R, solve):
@@ -92,6 +120,11 @@ def _replay(world, reg, c, ob, it, builders, R, solve):
         it.witness = {'model_excerpt': str(model)[:600]}
         it.detail = f'counter-model not concretizable: {e}'
         return
+    except Exception as e:  # noqa: BLE001
+        it.replayed = 'not-concretizable'
+        it.witness = {'model_excerpt': str(model)[:600]}
+        it.detail = f'counter-model not concretizable: {e!r}'
+        return
     it.witness = {'function': c.key, 'inputs': _jsonable(inputs)}
     try:
         out = R.run_real(c, reg, inputs, builders)
@@ -103,7 +136,7 @@ def _replay(world, reg, c, ob, it, builders, R, solve):
         it.replayed = 'not-concretizable'
         it.detail = f'replay harness error: {e!r}'
         return
-    it.extra['replay_outcome'] = out
+    it.extra['replay_outcome'] = _jsonable(out)
     if out['outcome'] == 'violation':
         it.replayed = 'reproduced'
         it.detail = f"real function on the counter-model input: {out['detail']}"
@@ -132,7 +165,7 @@ def replay_payload(prop, payload) -> int:
 
     reg = build_registry()
     w = payload.get('witness') or {}
-    key = w.get('function')
+    key = w.get('function') if isinstance(w, dict) else None
     if not key or key not in reg.contracts:
         print('replay file carries no concrete input (no-failing-input-found); obligation:', payload.get('obligation'))
         print(payload.get('detail'))
@@ -142,7 +175,7 @@ def replay_payload(prop, payload) -> int:
     for k, v in w['inputs'].items():
         inputs[k] = _unjson(v, c.sig.get(k, ''))
     out = R.run_real(c, reg, inputs, BUILDERS)
-    print(json.dumps(out, indent=1, default=repr))
+    print(json.dumps(_jsonable(out), indent=1))
     if out['outcome'] == 'violation':
         print(f'VIOLATION property={prop} replay=(reproduced)')
         return 1
@@ -151,7 +184,7 @@ def replay_payload(prop, payload) -> int:
 
 def _unjson(v, sortname):
     if isinstance(v, list) and len(v) == 3 and v[0] == 'prec':
-        return ('prec', v[1], {k: (set(x) if isinstance(x, list) and all(isinstance(y, str) and len(y) == 1 for y in x) and k == 'namechars' else x) for k, x in v[2].items()})
+        return ('prec', v[1], {k: (set(x) if k == 'namechars' and isinstance(x, list) else x) for k, x in v[2].items()})
     if sortname == 'charset' and isinstance(v, list):
         return set(v)
     return v
